@@ -191,6 +191,18 @@ def step_oracles(term, props, ops, recs, fails):
             o_c12_pad(term, t, op, pre, post, ridx, fails)
         if 'C17' in props and name in ('sat', 'find'):
             o_c17(term, t, op, pre, post, res, fails)
+        if 'C13' in props:
+            # the str payload of an AnsiStr - what str.__str__, '%s', print and file.write see - equals its
+            # own rendering, at every point of every history (also after its sources were mutated)
+            for i, ob in enumerate(post):
+                if ob[CLS] == 1 and ob[PAYLOAD] != ob[RENDERS][0]:
+                    fails.append({'oracle': 'C13.payload', 'step': t,
+                                  'msg': 'AnsiStr object %d: str payload %r differs from its own rendering %r' % (i, ob[PAYLOAD], ob[RENDERS][0])})
+                    break
+                if ob[CLS] == 1 and i < len(pre) and pre[i] != ob:
+                    fails.append({'oracle': 'C13.immutable', 'step': t,
+                                  'msg': 'AnsiStr object %d changed (text/settings/rendering) during %s' % (i, name)})
+                    break
         if 'C15' in props:
             for i, ob in enumerate(post):
                 if i < len(pre) and pre[i] == ob:
